@@ -563,6 +563,8 @@ package calendar
 //@     a := s.GetLunar()
 //@     t := s.NextDay(1)
 //@     b := t.GetLunar()
+//@     assert(sjdn(b.solar) == sjdn(a.solar)+1)
+//@     assert(a.dayGanIndex == modf(sjdn(a.solar)-11, 10) && b.dayGanIndex == modf(sjdn(a.solar)-10, 10) && a.dayZhiIndex == modf(sjdn(a.solar)-11, 12) && b.dayZhiIndex == modf(sjdn(a.solar)-10, 12))
 //@     assert(b.dayGanIndex == modf(a.dayGanIndex+1, 10) && b.dayZhiIndex == modf(a.dayZhiIndex+1, 12))
 //@     assert(modf(a.dayGanIndex, 2) == modf(a.dayZhiIndex, 2) && 0 <= a.dayGanIndex && a.dayGanIndex <= 9 && 0 <= a.dayZhiIndex && a.dayZhiIndex <= 11)
 //@     assert(modf(a.dayGanIndexExact, 2) == modf(a.dayZhiIndexExact, 2) && 0 <= a.dayGanIndexExact && a.dayGanIndexExact <= 9 && 0 <= a.dayZhiIndexExact && a.dayZhiIndexExact <= 11)
@@ -619,3 +621,27 @@ package calendar
 //@     f := NewFoto(y, m, d, h, mi, sec)
 //@     assert(f.GetYear() == y && f.GetMonth() == m && f.GetDay() == d)
 //@     assert(sjdn(f.GetLunar().solar) == lunarJdn(y-544, m, d) && f.GetLunar().hour == h && f.GetLunar().minute == mi && f.GetLunar().second == sec)
+
+//@ # ================================================================ C07: Taoist / Buddhist constructors, image of the civil days
+//@ func NewTao(year int, month int, day int, hour int, minute int, second int) *Tao [C07 C17]
+//@   requires 2 <= year-2697 && year-2697 <= 9997
+//@   panics_iff !(lunarExists(year-2697, month, day) && validHms(hour, minute, second))
+//@   ensures result.lunar != nil && result.lunar.year == year-2697 && result.lunar.month == month && result.lunar.day == day
+//@   ensures sjdn(result.lunar.solar) == lunarJdn(year-2697, month, day) && result.lunar.hour == hour && result.lunar.minute == minute && result.lunar.second == second
+
+//@ func NewFoto(year int, month int, day int, hour int, minute int, second int) *Foto [C07 C17]
+//@   requires 2 <= year-544 && year-544 <= 9997
+//@   panics_iff !(lunarExists(year-544, month, day) && validHms(hour, minute, second))
+//@   ensures result.lunar != nil && result.lunar.year == year-544 && result.lunar.month == month && result.lunar.day == day
+//@   ensures sjdn(result.lunar.solar) == lunarJdn(year-544, month, day) && result.lunar.hour == hour && result.lunar.minute == minute && result.lunar.second == second
+
+//@ # the triples the lunar constructor accepts are exactly the images of civil days: every civil day's lunar date exists
+//@ # (here), and every existing triple is the lunar date of the civil day NewLunar computes (rtLunar)
+//@ ghost func imageExists(s *Solar) [C07 C01]
+//@   requires 3 <= s.year && s.year <= 9996 && s.year != 18
+//@   body
+//@     l := NewLunarFromSolar(s)
+//@     tableAx(s.year)
+//@     midxRange(s.year, sjdn(s))
+//@     monthLocateBack(s.year, midx(s.year, sjdn(s)))
+//@     assert(lunarExists(l.year, l.month, l.day))
